@@ -326,6 +326,10 @@ def build(seed, tier, focus='all'):
     root([field("verbose", F), field("strict", F), field("other", O)], max_items=2)
     root([field("inner", ty("recv", leaf_fn)), field("e", ty("enum", e_word)), field("table", ty("map"), default="trait"), field("quiet", F)],
          max_items=2)
+    # --- suggestion scoping (C17): a flatten member that itself has a nested (non-flatten) receiver
+    flat_nest = c.struct([field("parent_opt", ty("recv", leaf_req2)), field("wide", U, default="trait")])
+    root([field("blast", V, default="trait"), field("pq", O), field("rest", ty("recv", flat_nest), flatten=True)], max_items=2)
+    root([field("width_max", O), field("hidden_one", V, skip=True), field("rest", ty("recv", flat_mid), flatten=True)], max_items=2)
     # --- element-level roots --------------------------------------------------------------------
     for i, tr in enumerate(ELEMENT_TRAITS):
         kw = dict(trait=tr, attr_names=["x"], max_items=3, max_attrs=3)
@@ -404,7 +408,7 @@ def build(seed, tier, focus='all'):
         is_elem = d["trait"] != "FromMeta"
         has_enum = any(f["ty"]["k"] == "enum" for f in d["fields"])
         keep = {"all": True, "struct": not is_elem and not has_enum, "element": is_elem, "enum": has_enum,
-                "suggest": not is_elem, "clean": True,
+                "suggest": not is_elem or d["max_attrs"] == 2, "clean": True,
                 "hostile": any(f["ty"]["k"] in ("enum", "flag", "recv", "map") for f in d["fields"]) or d["attrs_field"] != "none"}[focus]
         d["entry"] = True      # stays in the dispatch table whatever the focus
         d["root"] = keep
@@ -425,6 +429,11 @@ def build(seed, tier, focus='all'):
         if d["root"]:
             al = alphabet(c, d, d["rename_all"], 2, rng)
             elem = d["trait"] != "FromMeta"
+            if focus == "suggest":
+                d["alpha"] = suggest_alphabet(c, d, rng)[: (30 if tier == "quick" else 80)]
+                d["max_items"] = 2 if len(d["alpha"]) <= 20 else 1
+                d["max_attrs"] = 1
+                continue
             if focus == "clean":
                 # mistake-free inputs: only forms the field's type accepts, no unknown names / literals
                 al = [it for it in al if is_good(c, d, d["rename_all"], it)]
@@ -477,6 +486,81 @@ def is_good(c, s, rule, it):
         if k == "enum":
             return it["form"] != "list" or len(it["items"]) == 1
     return False
+
+
+def misspell(n, rng):
+    outs = set()
+    if len(n) > 2:
+        outs.add(n[:-1])
+        outs.add(n[1:])
+        i = rng.randrange(len(n) - 1)
+        outs.add(n[:i] + n[i + 1] + n[i] + n[i + 2:])
+        outs.add(n[:i] + "x" + n[i + 1:])
+    outs.add(n + "s")
+    outs.add(n + "_x")
+    return [o for o in outs if o and o != n and writable(o) and o[0].isalpha()]
+
+
+def level_names(c, s, rule):
+    own = [eff_field(rule, f) for f in s["fields"] if not f["flatten"]]        # incl. skipped ones
+    for f in s["fields"]:
+        if f["flatten"]:
+            sub = c.decls[f["ty"]["id"] - 1]
+            own += level_names(c, sub, sub["rename_all"])
+    return own
+
+
+def suggest_alphabet(c, d, rng):
+    """Unknown names at small edit distance from every name of every level reachable from this root
+    (own, skipped, flatten members', nested receivers', enum variants'), placed at every level."""
+    rule = d["rename_all"]
+    names = [n for n in level_names(c, d, rule) if writable(n)]
+    nested = []
+    for f in d["fields"]:
+        t = f["ty"]
+        stack = [t]
+        if f["flatten"]:
+            stack = [x["ty"] for x in c.decls[t["id"] - 1]["fields"]]
+        for t in stack:
+            if t["k"] == "recv":
+                sub = c.decls[t["id"] - 1]
+                nested.append((f, sub))
+    near = []
+    for n in names:
+        near += misspell(n, rng)
+    near += [n for f in d["fields"] if f["skip"] for n in [eff_field(rule, f)] if writable(n)]
+    rng.shuffle(near)
+    out = [meta(n, "nv", "s:v1") for n in near[:14]]
+    # inside nested (non-flatten) receivers: names close to the OUTER level's names and to the inner ones
+    for f in d["fields"]:
+        for t, holder in ([(f["ty"], d)] if not f["flatten"] else [(x["ty"], c.decls[f["ty"]["id"] - 1]) for x in c.decls[f["ty"]["id"] - 1]["fields"]]):
+            if t["k"] != "recv":
+                continue
+            sub = c.decls[t["id"] - 1]
+            fname = next(eff_field(holder["rename_all"], x) for x in holder["fields"] if x["ty"] is t)
+            if not writable(fname):
+                continue
+            inner_names = [n for n in level_names(c, sub, sub["rename_all"]) if writable(n)]
+            cand = [m for n in names[:3] + inner_names[:2] for m in misspell(n, rng)[:2]]
+            for m in cand[:4]:
+                out.append(meta(fname, "list", items=[meta(m, "nv", "s:v1")]))
+                out.append(meta(fname, "list", items=[meta(m, "nv", "s:v1"), meta("zzz", "word")]))
+        if f["ty"]["k"] == "enum" and not f["flatten"]:
+            e = c.decls[f["ty"]["id"] - 1]
+            fname = eff_field(rule, f)
+            for v in e["variants"]:
+                vn = v["rename"] or variant_case(enum_rule(e), v["rust"])
+                if writable(vn) and writable(fname):
+                    for m in misspell(vn, rng)[:2] + ([vn] if v["skip"] else []):
+                        out.append(meta(fname, "list", items=[meta(m, "word")]))
+    seen = set()
+    res = []
+    for it in out:
+        key = json.dumps(it, sort_keys=True)
+        if key not in seen:
+            seen.add(key)
+            res.append(it)
+    return res
 
 
 def cap_alphabet(al, cap, rng):
@@ -724,6 +808,7 @@ def main():
     ap.add_argument("--focus", default="all")
     ap.add_argument("--ndjson", required=True)
     ap.add_argument("--rs", required=True)
+    ap.add_argument("--names")
     a = ap.parse_args()
     c = build(a.seed, a.tier, a.focus)
     with open(a.ndjson, "w") as f:
@@ -732,6 +817,29 @@ def main():
             d.pop("entry", None)
             d.pop("deep", None)
             f.write(json.dumps(d) + "\n")
+    if a.names:
+        unknown = set()
+
+        def walk(it):
+            if it["k"] == "meta":
+                unknown.add(it["name"])
+            for x in it["items"]:
+                walk(x)
+        cands = set()
+        for d in c.decls:
+            for it in d["alpha"]:
+                walk(it)
+            rule = d["rename_all"]
+            rules = {rule, "snake_case"} | set(CASE_RULES)
+            for f in d["fields"]:
+                cands.add(f["rename"] or f["rust"])
+                for r in rules:
+                    cands.add(eff_field(r, f))
+            for v in d["variants"]:
+                for r in rules:
+                    cands.add(v["rename"] or variant_case(r, v["rust"]))
+        with open(a.names, "w") as f:
+            json.dump({"unknown": sorted(unknown), "cands": sorted(cands)}, f)
     src = render_rust(c)
     try:
         old = open(a.rs).read()
